@@ -229,6 +229,11 @@ pub fn gadgets() -> Vec<Gadget> {
     g!(v, "decompress_from_field", "F", true, |cs, i| Ok(OutVar::E(ElementVar::decompress_from_field(wf(cs, &f1(i))?)?)), |i| dec(&f1(i).to_bytes_le()).ok().map(Out::E));
     g!(v, "encode_to_curve", "F", true, |cs, i| Ok(OutVar::E(ElementVar::encode_to_curve(&wf(cs, &f1(i))?)?)), |i| Some(Out::E(El::encode_to_curve(&f1(i)))));
     g!(v, "decompress_from_field + compress_to_field", "F", true, |cs, i| Ok(OutVar::F(ElementVar::decompress_from_field(wf(cs, &f1(i))?)?.compress_to_field()?)), |i| dec(&f1(i).to_bytes_le()).ok().map(|_| Out::F(f1(i))));
+    // --- the same on constant-mode inputs (no constraint system attached to the operands)
+    g!(v, "compress_to_field (constant Element)", "E", false, |cs, i| { let e = e1(i); Ok(OutVar::F(ElementVar::new_constant(cs.clone(), e)?.compress_to_field()?)) }, |i| Some(Out::F(e1(i).vartime_compress_to_field())));
+    g!(v, "decompress_from_field (constant FqVar)", "F", false, |_cs, i| Ok(OutVar::E(ElementVar::decompress_from_field(FqVar::constant(f1(i)))?)), |i| dec(&f1(i).to_bytes_le()).ok().map(Out::E));
+    g!(v, "encode_to_curve (constant FqVar)", "F", false, |_cs, i| Ok(OutVar::E(ElementVar::encode_to_curve(&FqVar::constant(f1(i)))?)), |i| Some(Out::E(El::encode_to_curve(&f1(i)))));
+    g!(v, "isqrt (constant FqVar)", "F", false, |_cs, i| { let (a, y) = FqVar::constant(f1(i)).isqrt()?; Ok(OutVar::BF(a, y)) }, |i| { let (a, y) = Fq::sqrt_ratio_zeta(&Fq::ONE, &f1(i)); Some(Out::BF(a, y)) });
     // --- group operations
     g!(v, "Var + Var", "EE", false, |cs, i| Ok(OutVar::E(raw(cs, &e1(i))? + raw(cs, &e2(i))?)), |i| Some(Out::E(e1(i) + e2(i))));
     g!(v, "Var + &Var", "EE", false, |cs, i| { let q = raw(cs, &e2(i))?; Ok(OutVar::E(raw(cs, &e1(i))? + &q)) }, |i| Some(Out::E(e1(i) + e2(i))));
